@@ -265,14 +265,38 @@ func (c *Config) SetChild(name string, idx int, value *Config, opts ...Option) e
 	if value == nil {
 		return raiseNil(ErrNilConfig)
 	}
-	for p := c; p != nil; p = p.Parent() {
-		if p == value {
-			// a config below itself: Path, FlattenedKeys, Unpack ... would
-			// never come to an end
-			return raiseCyclicErr(name)
-		}
+	// a config below itself: Path, FlattenedKeys, Unpack ... would never come
+	// to an end. The config value is going to be stored in must not be value
+	// itself or a config below value.
+	o := makeOptions(opts)
+	at := parsePathIdx(name, idx, o).deepest(c, o)
+	if value.contains(at, map[*Config]bool{}) {
+		return raiseCyclicErr(name)
 	}
 	return c.setField(name, idx, cfgSub{c: value}, opts)
+}
+
+// contains reports whether other is c or a config below c.
+func (c *Config) contains(other *Config, seen map[*Config]bool) bool {
+	if c == other || (c.fields != nil && c.fields == other.fields) {
+		return true
+	}
+	if seen[c] || c.fields == nil {
+		return false
+	}
+	seen[c] = true
+
+	for _, v := range c.fields.dict() {
+		if sub, ok := v.(cfgSub); ok && sub.c.contains(other, seen) {
+			return true
+		}
+	}
+	for _, v := range c.fields.array() {
+		if sub, ok := v.(cfgSub); ok && sub.c.contains(other, seen) {
+			return true
+		}
+	}
+	return false
 }
 
 // getField supports the options: PathSep, Env, Resolve, ResolveEnv
